@@ -9,6 +9,7 @@ use crate::core::runner::{guarded, Batch, Property, Report, Tier};
 use crate::core::tape::{TapeGuard, TapeSpec};
 use serde::{Deserialize, Serialize};
 use serde_json::{json, Value};
+use smartcore::api::{Predictor, SupervisedEstimator};
 use smartcore::cluster::kmeans::{KMeans, KMeansParameters};
 use smartcore::ensemble::random_forest_classifier::{RandomForestClassifier, RandomForestClassifierParameters};
 use smartcore::ensemble::random_forest_regressor::{RandomForestRegressor, RandomForestRegressorParameters};
@@ -188,14 +189,15 @@ fn fit_once_t<T: RealNumber + Serialize + Send + 'static>(case: &Case, ambient: 
                     .with_criterion(criterion_of(&p.criterion))
             }
         };
-        match guarded(|| RandomForestClassifier::<T>::fit(&x, &yt, params)) {
+        let via_trait = case.ctor / 3 == 1;
+        match guarded(|| if via_trait { <RandomForestClassifier<T> as SupervisedEstimator<DenseMatrix<T>, Vec<T>, RandomForestClassifierParameters>>::fit(&x, &yt, params) } else { RandomForestClassifier::<T>::fit(&x, &yt, params) }) {
             Err(msg) => out.err = Some(format!("panic: {}", msg)),
             Ok(Err(e)) => out.err = Some(format!("error: {}", e)),
             Ok(Ok(model)) => {
                 out.words_consumed = guard.as_ref().map(|g| g.served());
                 out.bytes = bincode::serialize(&model).unwrap_or_default();
                 out.value = serde_json::to_value(&model).unwrap_or(Value::Null);
-                run_ops::<T>(case, &mut out, &x, &qm, &|m| model.predict(m).map(to64), &|m| model.predict_oob(m).map(to64));
+                run_ops::<T>(case, &mut out, &x, &qm, &|m| if via_trait { Predictor::<DenseMatrix<T>, Vec<T>>::predict(&model, m).map(to64) } else { model.predict(m).map(to64) }, &|m| model.predict_oob(m).map(to64));
                 model_box = Some(Box::new(model));
             }
         }
@@ -240,14 +242,15 @@ fn fit_once_t<T: RealNumber + Serialize + Send + 'static>(case: &Case, ambient: 
                     .with_min_samples_leaf(p.min_samples_leaf)
             }
         };
-        match guarded(|| RandomForestRegressor::<T>::fit(&x, &yt, params)) {
+        let via_trait = case.ctor / 3 == 1;
+        match guarded(|| if via_trait { <RandomForestRegressor<T> as SupervisedEstimator<DenseMatrix<T>, Vec<T>, RandomForestRegressorParameters>>::fit(&x, &yt, params) } else { RandomForestRegressor::<T>::fit(&x, &yt, params) }) {
             Err(msg) => out.err = Some(format!("panic: {}", msg)),
             Ok(Err(e)) => out.err = Some(format!("error: {}", e)),
             Ok(Ok(model)) => {
                 out.words_consumed = guard.as_ref().map(|g| g.served());
                 out.bytes = bincode::serialize(&model).unwrap_or_default();
                 out.value = serde_json::to_value(&model).unwrap_or(Value::Null);
-                run_ops::<T>(case, &mut out, &x, &qm, &|m| model.predict(m).map(to64), &|m| model.predict_oob(m).map(to64));
+                run_ops::<T>(case, &mut out, &x, &qm, &|m| if via_trait { Predictor::<DenseMatrix<T>, Vec<T>>::predict(&model, m).map(to64) } else { model.predict(m).map(to64) }, &|m| model.predict_oob(m).map(to64));
                 model_box = Some(Box::new(model));
             }
         }
@@ -610,7 +613,16 @@ impl C06 {
         labels.dedup();
         let ymin = case.y.iter().cloned().fold(f64::INFINITY, f64::min);
         let ymax = case.y.iter().cloned().fold(f64::NEG_INFINITY, f64::max);
-        let yscale = ymin.abs().max(ymax.abs()).max(1.0);
+        // relative to the actual magnitude of the targets (no floor at 1: small targets are judged as strictly as
+        // large ones) plus a few units of the smallest subnormal, the granularity of every result near zero
+        let yscale = ymin.abs().max(ymax.abs());
+        let q1 = if case.f32m { f32::from_bits(1) as f64 } else { f64::from_bits(1) };
+        let quantum = 4.0 * q1;
+        // range clause near zero: the trees derive a node's sum from its rounded mean (mean * count) and a child's mean
+        // from the difference of two such sums, so a leaf value carries up to (rows in the root / rows in the leaf) / 2
+        // roundings per level — relative to the values in the normal range (covered by range_tol), in units of the
+        // smallest subnormal below it. n^2 units is beyond any depth; it is 7e-320 for 120 rows.
+        let range_quantum = (4.0 + (n * n) as f64) * q1;
         // f32: leaf means come from single-precision running sums (worst excursion beyond the target range seen on the unchanged tree: 1.4e-5 of the scale)
         let (mean_tol, range_tol) = if case.f32m { (1e-4, 1e-3) } else { (1e-12, 1e-9) };
         let agg = |rows_of_trees: &[usize], row: usize| -> (Vec<(f64, usize)>, f64) {
@@ -670,12 +682,12 @@ impl C06 {
                     }
                 } else {
                     let err = (a_pred(i) - mean).abs();
-                    rep.max("reg_mean_err_rel", err / yscale);
-                    if !(err <= mean_tol * yscale) {
+                    rep.max(if case.f32m { "reg_mean_err_rel_f32" } else { "reg_mean_err_rel_f64" }, err / (yscale + quantum));
+                    if !(err <= mean_tol * yscale + quantum) {
                         rep.fail("not-mean", "forest-predict", format!("{}: predict returned {:e} for row {:?}; the mean of the member trees is {:e}", ctx, a_pred(i), q[i], mean));
                         break;
                     }
-                    if !(a_pred(i) >= ymin - range_tol * yscale && a_pred(i) <= ymax + range_tol * yscale) {
+                    if !(a_pred(i) >= ymin - range_tol * yscale - range_quantum && a_pred(i) <= ymax + range_tol * yscale + range_quantum) {
                         rep.fail("out-of-range", "forest-predict", format!("{}: prediction {:e} for row {:?} is outside the target range [{:e}, {:e}]", ctx, a_pred(i), q[i], ymin, ymax));
                         break;
                     }
@@ -716,8 +728,8 @@ impl C06 {
                         }
                     } else {
                         let err = (oob[i] - mean).abs();
-                        rep.max("reg_oob_mean_err_rel", err / yscale);
-                        if !(err <= mean_tol * yscale) {
+                        rep.max(if case.f32m { "reg_oob_mean_err_rel_f32" } else { "reg_oob_mean_err_rel_f64" }, err / (yscale + quantum));
+                        if !(err <= mean_tol * yscale + quantum) {
                             rep.fail(
                                 "oob-not-mean",
                                 "forest-oob",
@@ -725,7 +737,7 @@ impl C06 {
                             );
                             break;
                         }
-                        if !(oob[i] >= ymin - range_tol * yscale && oob[i] <= ymax + range_tol * yscale) {
+                        if !(oob[i] >= ymin - range_tol * yscale - range_quantum && oob[i] <= ymax + range_tol * yscale + range_quantum) {
                             rep.fail("out-of-range", "forest-oob", format!("{}: OOB prediction {:e} for row {} outside the target range", ctx, oob[i], i));
                             break;
                         }
@@ -879,7 +891,31 @@ fn gen_case(batch: &str, _index: u64, seed: u64) -> Case {
     } else {
         let coef: Vec<f64> = (0..p).map(|_| r.range(-2.0, 2.0)).collect();
         let off = *pr.pick(&[0.0, 0.0, 100.0, -5.0]);
-        y = x.iter().map(|row| off + row.iter().zip(&coef).map(|(a, b)| a * b).sum::<f64>() + 0.3 * r.gaussish()).collect();
+        let mut yy: Vec<f64> = x.iter().map(|row| off + row.iter().zip(&coef).map(|(a, b)| a * b).sum::<f64>() + 0.3 * r.gaussish()).collect();
+        // target magnitudes: real targets are not all of order one. Tiny (down to a few units of the smallest
+        // subnormal, where every division rounds to a multiple of it) and large (squares still finite)
+        let single = batch == "twins-f32";
+        match pr.below(12) {
+            0 => {
+                let s = if single { 1e-38 } else { 1e-300 };
+                for v in yy.iter_mut() { *v *= s; }
+            }
+            1 => {
+                // integers 0..8 times the smallest positive subnormal of the element type
+                let q = if single { f32::from_bits(1) as f64 } else { f64::from_bits(1) };
+                let lo = yy.iter().cloned().fold(f64::INFINITY, f64::min);
+                let hi = yy.iter().cloned().fold(f64::NEG_INFINITY, f64::max);
+                let span = (hi - lo).max(1e-9);
+                for v in yy.iter_mut() { *v = ((*v - lo) / span * 8.0).round() * q; }
+            }
+            2 => {
+                let s = if single { 1e15 } else { 1e100 };
+                for v in yy.iter_mut() { *v *= s; }
+            }
+            3 => { for v in yy.iter_mut() { *v *= 1e-3; } }
+            _ => {}
+        }
+        y = yy;
     }
     // seeds: random u64, the obvious corners, and structured values around the arithmetic boundaries of the
     // usual seed mixers (golden-ratio and splitmix constants: seed ^ K or seed + K close to u64::MAX or to 0)
@@ -948,7 +984,7 @@ fn gen_case(batch: &str, _index: u64, seed: u64) -> Case {
         ops.push(pr.below(5) as u8);
     }
     pr.shuffle(&mut ops);
-    let (pollute, refit_same_thread, ctor) = (pr.chance(0.5), pr.chance(0.5), pr.below(3) as u8);
+    let (pollute, refit_same_thread, ctor) = (pr.chance(0.5), pr.chance(0.5), pr.below(6) as u8);
     // boundary values in the forest's own seeded generator: rates from "one or two per forest" to "a third of all draws"
     let std_fault = if batch == "twins-draw-faults" { Some((sc.u64(), *pr.pick(&[300u32, 3000, 30_000, 150_000, 350_000]))) } else { None };
     Case { task: task.into(), x, y, params, queries, ambient_a, ambient_b, pollute, ops, refit_same_thread, kind: kind.into(), ctor, f32m, std_fault }
